@@ -22,6 +22,7 @@ EXTRA = [
     ("text", row(mtext("if "), mi("x"), mo(">"), mn("0"), mtext(" then stop"))),
     ("matrix3", row(mo("["), el("mtable", *[el("mtr", *[el("mtd", mn(str(3 * r + c))) for c in range(3)]) for r in range(3)]), mo("]"))),
     ("single", mi("z")),
+    ("ascii-quotes", row(mn("12"), mo('"'), mo("+"), mtext('"a"'), mo("+"), mi("x"), mo("'"), mo("+"), mn("5"), mo("'"), mn("3"), mo('"'))),
     # an expression that set_mathml accepts but whose braille fails (a table row without cells): queries must stay pure on the error path too
     ("braille-fails", el("mtable", el("mtr", terms.T("mrow")), el("mtr", el("mtd", mi("y"))))),
 ]
@@ -97,15 +98,25 @@ def build_ops(d, ids):
 def work(item):
     code, style, cases = item
     mc = mcx.worker_mc()
-    setup = [["rules_dir", mcx.RULES], ["pref", "TTS", "none"], ["pref", "BrailleCode", code], ["pref", "BrailleNavHighlight", style]]
+    # "A>B": the same expression is first queried (highlight, routing, position) under code A, then the code is switched to B and the
+    # whole history runs under B - everything is judged under B only
+    warm, code = (code.split(">") + [None])[:2] if ">" in code else (None, code)
+    setup = [["rules_dir", mcx.RULES], ["pref", "TTS", "none"], ["pref", "BrailleCode", warm or code], ["pref", "BrailleNavHighlight", style]]
     built = []
+    prefixes = []
     for label, t in cases:
         ti, ids = c07.with_ids(t)
         d = terms.doc(ti)
         ops, plan = build_ops(d, ids[:10])
         built.append((label, d, ops, plan))
-    _, res = mc.run_cases(setup, [[["pref", "BrailleNavHighlight", style]] + b[2] for b in built], per_case_timeout=60.0)
-    res = [r[1:] for r in res]
+        pre = [["pref", "BrailleNavHighlight", style]]
+        if warm:
+            pre = [["pref", "BrailleCode", warm]] + pre + [["mathml", d]] + [["braille", i] for i in ids[:6]] + [["nodeat", 0], ["nodeat", 3], ["setnav", ids[min(1, len(ids) - 1)], 0], ["brpos"],
+                                                                                                       ["pref", "BrailleCode", code]]
+        prefixes.append(pre)
+    _, res = mc.run_cases(setup, [pre + b[2] for pre, b in zip(prefixes, built)], per_case_timeout=60.0)
+    res = [r[len(pre):] for pre, r in zip(prefixes, res)]
+    code_label = f"{warm}>{code}" if warm else code
     viol, counts, nontriv = [], {"evaluations": 0, "skipped_panics": 0, "rejected": 0, "queries": 0, "snapshots": 0}, []
     for (label, d, ops, plan), r in zip(built, res):
         r = norm_ids(r)
@@ -113,15 +124,20 @@ def work(item):
         if not is_ok(r[0]):
             counts["rejected" if not is_panic(r[0]) else "skipped_panics"] += 1
             continue
-        if any(is_panic(x) for x in r):
-            counts["skipped_panics"] += 1
-            continue
         canon_ids = set(re.findall(r"\sid='([^']*)'", val(r[0])))
-        replay = {"code": code, "style": style, "label": label, "doc": d}
+        replay = {"code": code_label, "style": style, "label": label, "doc": d}
+        pi = next((i for i, x in enumerate(r) if is_panic(x)), None)
+        if pi is not None:
+            # "always succeeds": a panic in (or after) these queries is a failure of this property; keyed by the call and the source line
+            x = r[pi]
+            from props import c08
+            viol.append((f"C20|panic|{ops[pi][0]}|{c08.source_line(x[1]) if len(x) > 1 and x[0] == 'p' else x[0]}|{code}", f"[{code_label} highlight={style}] {label}: call #{pi} {ops[pi][:2]} panicked: {short(x, 200)}", replay))
+            counts["panics"] = counts.get("panics", 0) + 1
+            continue
         lc = canon_run.label_class(label)
 
         def bad(kind, what):
-            viol.append((f"C20|{kind}|{code}", f"[{code} highlight={style}] {label}: {what}", replay))
+            viol.append((f"C20|{kind}|{code}" + ("|after-code-switch" if warm else ""), f"[{code_label} highlight={style}] {label}: {what}", replay))
         base_cheap = base_full = None
         plain = None
         moved_to = None
@@ -223,7 +239,10 @@ def main(tier):
     corp = corpus(tier)
     run.count("expressions", len(corp))
     jobs = []
-    for code in CODES + (["Vietnam"] if tier == "thorough" else []):
+    codes = CODES + (["Vietnam"] if tier == "thorough" else [])
+    switches = [f"{a}>{b_}" for a in codes for b_ in codes if a != b_]
+    run.count("code_switch_pairs", len(switches))
+    for code in codes + switches:
         for style in STYLES:
             for i in range(0, len(corp), 6):
                 jobs.append((code, style, corp[i:i + 6]))
@@ -251,10 +270,11 @@ def main(tier):
         rule=f"expressions: 7 hand-written (quadratic formula, long numbers, capitals, invisible operators, text, 3x3 matrix, single token) + every depth-1 term of G"
              f"{' + depth-2 terms over a 12-construct core' if tier == 'thorough' else ''}, with author ids on every element; codes {CODES + (['Vietnam'] if tier == 'thorough' else [])} x 4 highlight styles. "
              f"One history per (expression, code, style): get_braille for each of the first 10 ids, an unknown id and ''; node_from_braille for cells 0..{NCELL - 1}, 200, 9999 and usize::MAX; "
-             "set_navigation_node + get_braille_position + get_braille for each id; and after each of 6 navigation commands position / routing / highlight queries again. After every query the "
+             "set_navigation_node + get_braille_position + get_braille for each id; and after each of 6 navigation commands position / routing / highlight queries again. "
+             "The same history again for every ordered pair of codes A>B: warm-up queries under A, switch to B, whole history under B. After every query the "
              "highlight preference and navigation position are re-read (every 6th: speech, braille, overview too). states = snapshots compared, transitions = queries; "
              "distinct_nontrivial = distinct (code, style, braille) results",
         coverage_extra={"states": states, "transitions": trans, "traces_validated_against_impl": int(run.counters.get("evaluations", 0))},
         assumptions=["set_navigation_node is the one call of the history that is allowed to move the position",
-                     "panics are counted as skipped and reported by C08"],
+                     "a panic anywhere in a history is a violation of 'always succeeds' (keyed by call and source location)"],
         confirm=confirm)
